@@ -479,6 +479,9 @@ func (r *srep) Put(m *sse.Message, tp []string) (*sse.Message, error) {
 	switch r.fp.put[name] {
 	case "panic":
 		r.t.log(jev{"e": "put", "p": name, "v": "panic", "id": "", "idset": false})
+		if len(name)%2 == 0 {
+			panic(fmt.Errorf("scripted replayer panic in Put: %w", errPut))
+		}
 		panic("scripted replayer panic in Put")
 	case "err":
 		r.t.log(jev{"e": "put", "p": name, "v": "err", "id": "", "idset": false})
